@@ -10,6 +10,7 @@ func init() {
 			ID: "C14",
 			Explanation: "The limit clause is decided exactly from the code shape: MaxPayloadSize evaluates to 6 MiB + 100; in the reply sink the oversize refusal is taken on the true edge of 'len(io.ReadAll(payload)) > MaxPayloadSize' (operator, operands and constant checked), the write to the caller is dominated by its false edge and writes the complete body, the refusal is returned before any write and before the ReplySent mark, and it carries both sizes; " +
 				"the response handler's oversize case sends err.AsErrorResponse() for the URL id, completes the invocation and answers 413 without any reset/cancel/shutdown call; the substitute error has type Function.ResponseSizeTooLarge and a message built from both sizes; the event is read through LimitReader(payload, MaxPayloadSize) once and never consumed. " +
+				"Added after the blind rounds: the typed too-large error reaches the handler's type switch (R-ERRID); the substitute error always reaches the reply sink; the front end reads the whole event body. " +
 				"NOT decided: that the environment is healthy afterwards beyond 'no teardown is triggered and the automaton reaches ResponseSent'; the direct-invoke counterpart is C17.",
 			RuleText:    "one obligation per exit of the reply sink, per write site, per handler step, per constant; non-trivial when an instruction, fact set or constant was inspected",
 			Assumptions: trusted,
